@@ -64,7 +64,8 @@ def setup():
     funcs += threadsim.functions_of(dns.zone.WritableVersion, {"__init__"})
     funcs += threadsim.functions_of(dns.zone.ImmutableVersion, {"__init__"})
     funcs += threadsim.functions_of(dns.btreezone.WritableVersion, {"__init__"})
-    funcs += threadsim.functions_of(dns.btreezone.ImmutableVersion, {"__init__"})
+    funcs += threadsim.functions_of(dns.btreezone.ImmutableVersion, {"__init__", "bounds"})
+    funcs += threadsim.functions_of(dns.btreezone.Delegations)
     threadsim.enable_line_preemption(funcs)
     # fault point: a failing allocation while the admitted writer builds its private version
     for cls in (dns.zone.WritableVersion, dns.btreezone.WritableVersion, dns.zone.ImmutableVersion, dns.btreezone.ImmutableVersion):
@@ -198,6 +199,9 @@ def _build_zone(cfg, nthreads):
         "@ 300 IN SOA ns1 hostmaster 1 7200 900 1209600 300",
         "@ 300 IN NS ns1",
         "ns1 300 IN A 10.0.0.1",
+        "sub 300 IN NS host.sub",
+        "host.sub 300 IN A 10.0.0.2",
+        "zcut 300 IN NS ns1",
         'counter 300 IN TXT "0"',
     ]
     for i in range(cfg["slots"]):
@@ -622,6 +626,16 @@ class _World:
                     "C12:partial-visibility",
                     f"reader T{t.idx}: counter {c} but slot{i} {v}",
                 )
+        if hasattr(r.version, "bounds"):
+            # several readers query one shared immutable version at the same time
+            saved = t.phase
+            t.phase = "reader_call"
+            for qn, want_cut in (("host.sub", True), ("ns1", False), ("x.zcut", True), ("counter", False)):
+                bnd = r.version.bounds(self.name(qn))
+                if bool(bnd.is_delegation) != want_cut:
+                    raise Violation("C12:reader-bad-bounds", f"reader T{t.idx}: bounds({qn}) on its snapshot says is_delegation={bnd.is_delegation}")
+            t.phase = saved
+            self.res.probes.inc("concurrent_bounds_queries_on_shared_version")
         return c
 
     def reader_op(self, t, op, n):
